@@ -216,3 +216,52 @@ package raft
 //@     invariant len(backups) < dbh.keep ==> !in(bname(dbh, len(backups) - 1), old(fs))
 //@     invariant forall s string :: s != dataFolder(dbh) && (forall k int :: 0 <= k && k < dbh.keep ==> s != bname(dbh, k)) ==> (in(s, fs) <==> in(s, old(fs))) && fsContent[s] == old(fsContent)[s]
 //@   modifies fs, fsContent
+
+// ---- C15: the raft section's saved form: every setting is written from the field of the same name ----
+//@ func (cfg *Config) toJSONConfig
+//@   property C15
+//@   requires cfg != nil && cfg.RaftConfig != nil
+//@   ensures res != nil && fresh(res)
+//@   ensures [data-folder] res.DataFolder == cfg.DataFolder
+//@   ensures [init-peerset] len(res.InitPeerset) == len(cfg.InitPeerset)
+//@   ensures [wait-for-leader-timeout] res.WaitForLeaderTimeout == cfg.WaitForLeaderTimeout.String()
+//@   ensures [network-timeout] res.NetworkTimeout == cfg.NetworkTimeout.String()
+//@   ensures [commit-retries] res.CommitRetries == cfg.CommitRetries
+//@   ensures [commit-retry-delay] res.CommitRetryDelay == cfg.CommitRetryDelay.String()
+//@   ensures [backups-rotate] res.BackupsRotate == cfg.BackupsRotate
+//@   ensures [heartbeat-timeout] res.HeartbeatTimeout == cfg.RaftConfig.HeartbeatTimeout.String()
+//@   ensures [election-timeout] res.ElectionTimeout == cfg.RaftConfig.ElectionTimeout.String()
+//@   ensures [commit-timeout] res.CommitTimeout == cfg.RaftConfig.CommitTimeout.String()
+//@   ensures [max-append-entries] res.MaxAppendEntries == cfg.RaftConfig.MaxAppendEntries
+//@   ensures [trailing-logs] res.TrailingLogs == cfg.RaftConfig.TrailingLogs
+//@   ensures [snapshot-interval] res.SnapshotInterval == cfg.RaftConfig.SnapshotInterval.String()
+//@   ensures [snapshot-threshold] res.SnapshotThreshold == cfg.RaftConfig.SnapshotThreshold
+//@   ensures [leader-lease-timeout] res.LeaderLeaseTimeout == cfg.RaftConfig.LeaderLeaseTimeout.String()
+//@   ensures [namespace-omitted-when-default] res.DatastoreNamespace == ite(cfg.DatastoreNamespace != DefaultDatastoreNamespace, cfg.DatastoreNamespace, "")
+//@   modifies nothing
+
+// assumed (not verified): validation only reads (it calls hashicorp/raft's ValidateConfig)
+//@ func (cfg *Config) Validate
+//@   opts trusted
+//@   modifies nothing
+
+// the loaded form: every setting is read into the field of the same name; zero / empty / unparsable keeps the default
+//@ spec func parseDur(s string) time.Duration = libfn("time.ParseDuration", 0, s)
+//@ func (cfg *Config) applyJSONConfig
+//@   property C15
+//@   requires cfg != nil && cfg.RaftConfig != nil && jcfg != nil
+//@   ensures [data-folder] cfg.DataFolder == ite(jcfg.DataFolder != "", jcfg.DataFolder, old(cfg.DataFolder))
+//@   ensures [wait-for-leader-timeout] cfg.WaitForLeaderTimeout == ite(parseDur(jcfg.WaitForLeaderTimeout) != 0, parseDur(jcfg.WaitForLeaderTimeout), old(cfg.WaitForLeaderTimeout))
+//@   ensures [network-timeout] cfg.NetworkTimeout == ite(parseDur(jcfg.NetworkTimeout) != 0, parseDur(jcfg.NetworkTimeout), old(cfg.NetworkTimeout))
+//@   ensures [commit-retries] cfg.CommitRetries == jcfg.CommitRetries
+//@   ensures [commit-retry-delay] cfg.CommitRetryDelay == ite(parseDur(jcfg.CommitRetryDelay) != 0, parseDur(jcfg.CommitRetryDelay), old(cfg.CommitRetryDelay))
+//@   ensures [backups-rotate] cfg.BackupsRotate == ite(jcfg.BackupsRotate != 0, jcfg.BackupsRotate, old(cfg.BackupsRotate))
+//@   ensures [heartbeat-timeout] parseDur(jcfg.HeartbeatTimeout) != 0 ==> cfg.RaftConfig.HeartbeatTimeout == parseDur(jcfg.HeartbeatTimeout)
+//@   ensures [election-timeout] parseDur(jcfg.ElectionTimeout) != 0 ==> cfg.RaftConfig.ElectionTimeout == parseDur(jcfg.ElectionTimeout)
+//@   ensures [commit-timeout] parseDur(jcfg.CommitTimeout) != 0 ==> cfg.RaftConfig.CommitTimeout == parseDur(jcfg.CommitTimeout)
+//@   ensures [max-append-entries] jcfg.MaxAppendEntries != 0 ==> cfg.RaftConfig.MaxAppendEntries == jcfg.MaxAppendEntries
+//@   ensures [trailing-logs] jcfg.TrailingLogs != 0 ==> cfg.RaftConfig.TrailingLogs == jcfg.TrailingLogs
+//@   ensures [snapshot-interval] parseDur(jcfg.SnapshotInterval) != 0 ==> cfg.RaftConfig.SnapshotInterval == parseDur(jcfg.SnapshotInterval)
+//@   ensures [snapshot-threshold] jcfg.SnapshotThreshold != 0 ==> cfg.RaftConfig.SnapshotThreshold == jcfg.SnapshotThreshold
+//@   ensures [leader-lease-timeout] parseDur(jcfg.LeaderLeaseTimeout) != 0 ==> cfg.RaftConfig.LeaderLeaseTimeout == parseDur(jcfg.LeaderLeaseTimeout)
+//@   modifies *
